@@ -127,6 +127,7 @@ func pow10Big(q int) *big.Float {
 
 func TestC04(t *testing.T) {
 	runProp(t, "C04", func(e *env) {
+		e.coldStage(5, 20)
 		r := e.r
 		eval := func(kind string, lit string) error {
 			in := []byte(lit)
